@@ -64,14 +64,28 @@ Definition eval_route_skills (vs : option (list Z)) (js : option jskills) : opti
   | None => None
   end.
 
-(* SkillsConstraint::merge: true = Ok(source), false = Err(code) *)
+(* SkillsConstraint::merge: true = Ok(source), false = Err(code).  all_of / none_of: the candidate's set must be a subset of the
+   source's; one_of (since the repair ee5718d of finding C01-F10): the SOURCE's set must be a subset of the candidate's *)
 Definition check_skill_sets (src cand : option (list Z)) : bool :=
   match src, cand with
   | _, None => true
   | None, Some _ => false
   | Some s, Some c => forallb (fun x => zmem x s) c        (* candidate.is_subset(source) *)
   end.
+Definition check_one_of_sets (src cand : option (list Z)) : bool :=
+  match src, cand with
+  | Some s, Some c => forallb (fun x => zmem x c) s        (* source_set.is_subset(candidate_set) *)
+  | _, _ => check_skill_sets src cand
+  end.
 Definition merge_skills (src cand : option jskills) : bool :=
+  match src, cand with
+  | _, None => true
+  | None, Some _ => false
+  | Some s, Some c => check_skill_sets (js_all s) (js_all c) && check_one_of_sets (js_one s) (js_one c)
+                      && check_skill_sets (js_none s) (js_none c)
+  end.
+(* the function as it was before the repair (witness theorem C01_skills_merge_one_of_prefix_refuted) *)
+Definition merge_skills_prefix (src cand : option jskills) : bool :=
   match src, cand with
   | _, None => true
   | None, Some _ => false
